@@ -3,3 +3,5 @@
 package harness
 
 func drainRaceLogs() []string { return nil }
+
+func ensureRaceLog() {}
